@@ -163,6 +163,61 @@ pub fn check_matrix(m: &Small, origin: &str, acc: &mut Acc) {
     }
 }
 
+/// Every relative storage order of the entries inside the rows: for each permutation sigma of the
+/// columns the matrix is built row by row with each row's entries inserted in sigma order (and,
+/// for odd-indexed permutations, the rows bottom-up). Verdict and codewords must equal those of the
+/// row-major build (which check_matrix judges against the reference).
+pub fn check_column_orders(m: &Small, acc: &mut Acc) {
+    let (r, n) = (m.r, m.n);
+    let k = n - r;
+    let key = format!("encoder:orders:{}x{}:{}", r, n, m.alist_like());
+    let replay = json!({"kind": "matrix", "n": n, "rows": m.rows, "origin": "orders"});
+    let words_of = |h: &ldpc_toolbox::sparse::SparseMatrix| -> Result<Option<Vec<Vec<u8>>>, String> { guard(|| Encoder::from_h(h).ok().map(|e| (0..(1u64 << k)).map(|msg| encode_word(&e, k, msg, 0)).collect::<Vec<_>>())) };
+    let base = match words_of(&m.sparse()) {
+        Ok(b) => b,
+        Err(_) => return, // reported by check_matrix
+    };
+    let mut perm: Vec<usize> = (0..n).collect();
+    let mut idx = 0usize;
+    loop {
+        acc.evals += 1;
+        if base.is_some() {
+            acc.nontrivial += 1;
+        }
+        let mut h = ldpc_toolbox::sparse::SparseMatrix::new(r, n);
+        let rows: Vec<usize> = if idx % 2 == 0 { (0..r).collect() } else { (0..r).rev().collect() };
+        for &i in &rows {
+            for &j in &perm {
+                if m.get(i, j) {
+                    h.insert(i, j);
+                }
+            }
+        }
+        match words_of(&h) {
+            Err(e) => {
+                acc.violate(key, format!("built with the row entries in column order {:?}: from_h / encode panicked: {}", perm, e), replay);
+                return;
+            }
+            Ok(w) => {
+                if w.is_some() != base.is_some() {
+                    acc.violate(key, format!("accepted: {} when built row-major, {} when the row entries are inserted in column order {:?}", base.is_some(), w.is_some(), perm), replay);
+                    return;
+                }
+                if w != base {
+                    acc.violate(key, format!("encodes differently when the row entries are inserted in column order {:?}", perm), replay);
+                    return;
+                }
+            }
+        }
+        idx += 1;
+        // next permutation (lexicographic)
+        let Some(i) = (0..n.saturating_sub(1)).rev().find(|&i| perm[i] < perm[i + 1]) else { break };
+        let j = (i + 1..n).rev().find(|&j| perm[j] > perm[i]).unwrap();
+        perm.swap(i, j);
+        perm[i + 1..].reverse();
+    }
+}
+
 fn check_big(name: &str, h: &ldpc_toolbox::sparse::SparseMatrix, acc: &mut Acc) {
     use crate::mats::Big;
     acc.evals += 1;
@@ -296,7 +351,11 @@ fn replay_element(v: &Value, acc: &mut Acc) {
     }
     let n = v["n"].as_u64().unwrap() as usize;
     let rows: Vec<u64> = v["rows"].as_array().unwrap().iter().map(|x| x.as_u64().unwrap()).collect();
-    check_matrix(&Small { r: rows.len(), n, rows }, "replay", acc)
+    let m = Small { r: rows.len(), n, rows };
+    check_matrix(&m, "replay", acc);
+    if n <= 6 {
+        check_column_orders(&m, acc);
+    }
 }
 
 pub fn run(run: &Run) -> i32 {
@@ -342,6 +401,30 @@ pub fn run(run: &Run) -> i32 {
         }
     }
     if run.replay.is_none() {
+        // every storage order of the row entries, for the shapes where that is affordable
+        let mut list: Vec<Small> = Vec::new();
+        for (r, n) in if run.thorough() { vec![(2usize, 3usize), (2, 4), (3, 4), (3, 5), (2, 5)] } else { vec![(2usize, 3usize), (2, 4), (3, 4)] } {
+            for mask in 0..(1u64 << (r * n)) {
+                list.push(Small::from_mask(r, n, mask));
+            }
+        }
+        for r in 1..=3usize {
+            for k in 0..=if run.thorough() { 3usize } else { 2 } {
+                for h0 in 0..(1u64 << (r * k)) {
+                    let m = staircase_matrix(r, k, h0);
+                    for f in 0..r * r {
+                        let mut m2 = m.clone();
+                        m2.rows[f / r] ^= 1u64 << (k + f % r);
+                        list.push(m2);
+                    }
+                    list.push(m);
+                }
+            }
+        }
+        let a = par_items(&list, |m, a| check_column_orders(m, a));
+        acc = acc.merge(a);
+    }
+    if run.replay.is_none() {
         // many rows: dense invertible / singular tails (fill-in during elimination), reference by big bit-set rank
         let mut fam = crate::c09::big_families_pub(run.thorough());
         fam.extend(wide_families(run.thorough()));
@@ -357,7 +440,7 @@ pub fn run(run: &Run) -> i32 {
         run,
         acc,
         Coverage {
-            rule: "every binary matrix of every listed shape (all masks) plus, for r up to the bound and k<=4, the exact staircase tail with every information part and every single-bit flip of the r x r tail; for each accepted matrix ALL 2^(n-r) messages and all message pairs (linearity); every matrix is additionally built in three scrambled insertion orders, with the messages passed as owned arrays, reversed views (stride -1) and stride-2 views, and must give the same verdict and codewords. Plus deterministic families with many rows (dense invertible and singular tails up to 40 (64) rows) and wide families (2, 3, 8 checks x 65..8193 (65537) columns: staircase, triangular and singular tails, sparse and dense information parts; six messages each). Non-trivial = invertible tail and n > r.".into(),
+            rule: "every binary matrix of every listed shape (all masks) plus, for r up to the bound and k<=4, the exact staircase tail with every information part and every single-bit flip of the r x r tail; for each accepted matrix ALL 2^(n-r) messages and all message pairs (linearity); every matrix is additionally built in three scrambled insertion orders, with the messages passed as owned arrays, reversed views (stride -1) and stride-2 views, and must give the same verdict and codewords; for the shapes 2x3, 2x4, 3x4 (thorough 3x5, 2x5) and the (near-)staircase family with r <= 3, k <= 2 (3), EVERY storage order of the entries within the rows (all n! column permutations, rows top-down / bottom-up). Plus deterministic families with many rows (dense invertible and singular tails up to 40 (64) rows) and wide families (2, 3, 8 checks x 65..8193 (65537) columns: staircase, triangular and singular tails, sparse and dense information parts; six messages each). Non-trivial = invertible tail and n > r.".into(),
             exhaustive: true,
             extra,
             graph: None,
